@@ -99,6 +99,8 @@ class Ctx:
             # deferred: becomes  forall v. guard(v) => goal  when the binder is left
             self.binder_frames[-1][2].append((goal, name, serves, kind, note))
             return
+        if len(self.dec) < len(self.prefix):
+            return  # still replaying the decisions of the parent path: this obligation was emitted there
         self.obl.append(
             Obligation(name, serves, list(self.static) + list(self.pc), goal, self.fn, self.path_label(), kind, note)
         )
@@ -132,6 +134,18 @@ class Ctx:
         r = self._solver.check()
         self._solver.pop()
         return r != z3.unsat
+
+    def choose(self, why=""):
+        """a free nondeterministic choice (both outcomes always feasible): no solver call"""
+        i = len(self.dec)
+        if i < len(self.prefix):
+            d = self.prefix[i]
+        else:
+            d = True
+            self.pending.append(self.dec + [False])
+        self.dec.append(d)
+        self.trace.append((why, d))
+        return d
 
     def fork(self, cond, why="", else_assume=None):
         """Decide `cond` on this path.  `else_assume` (optional) replaces `Not(cond)` as the fact recorded on the
